@@ -496,7 +496,7 @@ ASSUMPTIONS = ['letters and digits are ASCII (DESIGN.md 2.2): str.upper of a non
                'and the regex \\d and int() accept non-ASCII digits; such characters are outside the claimed domain',
                'integer literals have at most 4300 digits (CPython refuses longer ones with a ValueError; the model says Crash there, the theorems assume the bound)',
                'function bodies nest at most 150 deep (the recursion of parse_group is unguarded; CPython raises RecursionError between 500 and 1000 levels)']
-PARTIAL = ['parse_stream / parse_file agree with parse_string: no theorem; correspondence (fn 3, 4, 9) and the oracle only',
+PARTIAL = ['parse_stream / parse_file agree with parse_string: proved on printed sources (entry_points_agree); on arbitrary sources correspondence (fn 3, 4, 9) and the oracle only',
            'error_names_line assumes that no string literal is left open at a line end (line feeds inside a string token are not counted by the scanner)',
            'every malformed source is rejected: refuted (finding F21); proved in the form accepted_is_printed + arity_respected_partial + last_command_complete',
            'non-ASCII letters/digits, integer literals beyond 4300 digits and nesting beyond 150 levels are outside the claimed domain']
